@@ -360,7 +360,7 @@ func checkMalformed(r *vlib.Run, rng *rand.Rand, idx int) {
 }
 
 func runKeys(r *vlib.Run) {
-	n := r.N(60000, 2000000)
+	n := r.N(100000, 8000000)
 	for i := 0; i < n; i++ {
 		rng := r.RandN("keys", i)
 		w := genWireName(rng)
